@@ -53,6 +53,46 @@ func runC16(w *World, r *Report) {
 	} else {
 		r.Undecided("C16-R5", "startReadChannel", 0, "anchor not found")
 	}
+	r.Rule("C16-R6", "the quota check counts values, not keys", "ChannelMapping.CheckKeyNotExist decides by comparing the VALUES of the mapping table with the offered channel of the other side (how many keys already point at it); it never looks the offered channel up as a key", 1)
+	if ck := w.Func(pkgUtil, "ChannelMapping", "CheckKeyNotExist"); ck != nil {
+		keyLookup := token.NoPos
+		usesTarget, usesSource := false, false
+		for _, g := range familyOf(ck).Funcs {
+			eachInstr(g, func(in ssa.Instruction) {
+				if lk, ok := in.(*ssa.Lookup); ok {
+					if _, isMap := lk.X.Type().Underlying().(*types.Map); isMap && strings.HasSuffix(w.accessPath(lk.X), "Mapping") {
+						keyLookup = lk.Pos()
+					}
+				}
+				if bo, ok := in.(*ssa.BinOp); ok && bo.Op == token.EQL {
+					for _, o := range []ssa.Value{bo.X, bo.Y} {
+						for _, x := range backSlice(o, SliceOpts{MaxDepth: 3}) {
+							if x == ssa.Value(ck.Params[2]) {
+								usesTarget = true
+							}
+							if x == ssa.Value(ck.Params[1]) {
+								usesSource = true
+							}
+						}
+					}
+				}
+				// lo.Contains(values, target) / lo.Count(values, target)
+				if c, ok := in.(*ssa.Call); ok && strings.HasSuffix(callSym(c.Common()).pkg, "samber/lo") {
+					for _, a := range c.Call.Args {
+						if a == ssa.Value(ck.Params[2]) {
+							usesTarget = true
+						}
+						if a == ssa.Value(ck.Params[1]) {
+							usesSource = true
+						}
+					}
+				}
+			})
+		}
+		r.Check(keyLookup == token.NoPos && usesTarget && usesSource, "C16-R6", "(*ChannelMapping).CheckKeyNotExist | decides by values", ck.Pos(), "compares the table's values with the offered channel", "the check looks the offered channel up as a KEY of the mapping table (or does not compare the values with it): a new key always looks free, so several channels are assigned to one channel of the other side")
+	} else {
+		r.Undecided("C16-R6", "CheckKeyNotExist", 0, "anchor not found")
+	}
 	r.Rule("C16-R4", "assignments are append-only", "ChannelMapping's maps are written only in AddKeyValue/NewChannelMapping; no delete() or reassignment of channelHandlerMap / sourcePChannelKeyMap / ChannelMapping maps anywhere", 4)
 
 	mgr := w.Named(pkgReader, "replicateChannelManager")
